@@ -83,6 +83,8 @@ func (e *Engine) evalContract(st *State, fn *ssa.Function, args []Val, assume bo
 	s2 := st.clone()
 	s2.spec = true
 	s2.assume = assume
+	s2.goal = !assume
+	s2.root = st
 	n0 := len(s2.pc)
 	savedPaths := e.paths
 	outs := e.execFunc(s2, fn, args, nil, 1)
@@ -327,9 +329,16 @@ func (e *Engine) vspecCall(st *State, fr *Frame, name string, args []Val) ([]Out
 		if !ok {
 			fail("Forall: not a function literal")
 		}
-		bv := Sym(fresh("k"), 64)
+		skolem := st.goal && !st.assume && st.root != nil
+		bv := BoundVar(fresh("k"), 64)
+		if skolem {
+			// proving (forall k. P(k)) is proving P(sk) for a fresh constant; the assumed quantified facts are
+			// instantiated at the places P(sk) reads, which is all the solver needs (and all it can digest quickly)
+			bv = Sym(fresh("sk"), 64)
+		}
 		s2 := st.clone()
 		s2.spec = true
+		s2.goal = false
 		s2.trace = &readTrace{bases: map[string]*Term{}}
 		n0 := len(s2.pc)
 		saved := e.paths
@@ -340,6 +349,22 @@ func (e *Engine) vspecCall(st *State, fr *Frame, name string, args []Val) ([]Out
 			body = Or(body, And(append(append([]*Term{}, o.st.pc[n0:]...), asTerm(o.ret[0]))...))
 		}
 		guarded := Implies(And(SLe(lo, bv), SLt(bv, hi)), body)
+		if skolem {
+			done := map[string]bool{}
+			for _, rd := range s2.trace.reads {
+				for _, f := range st.root.qfacts {
+					if f.Key != rd.key {
+						continue
+					}
+					inst := subst(f.Body, f.BV.Leaf, Sub(rd.abs, f.Off))
+					if k := inst.String(); !done[k] {
+						done[k] = true
+						st.root.assumeT(inst)
+					}
+				}
+			}
+			return one(guarded)
+		}
 		if st.assume {
 			// remember the fact for instantiation at later reads of the arrays it talks about
 			for base, off := range s2.trace.bases {
@@ -405,6 +430,7 @@ func (e *Engine) vspecCall(st *State, fr *Frame, name string, args []Val) ([]Out
 
 
 func (e *Engine) installUnfold(st *State) {
+	validHook = func(c *Term) bool { return e.valid(st, c) }
 	unfoldHook = func(p Piece) ([]alt, bool) {
 		fn, ok := p.Fn.(*ssa.Function)
 		if !ok || fn == nil {
@@ -438,7 +464,7 @@ func (e *Engine) eqBytes(st *State, a, b SliceV) *Term {
 	if arrA.String() == arrB.String() && a.Off.String() == b.Off.String() {
 		return Eq(a.Len, b.Len)
 	}
-	k := Sym(fresh("k"), 64)
+	k := BoundVar(fresh("k"), 64)
 	body := Implies(And(SLe(BVu(0, 64), k), SLt(k, a.Len)), Eq(Select(arrA, Add(a.Off, k), 8), Select(arrB, Add(b.Off, k), 8)))
 	return And(Eq(a.Len, b.Len), Forall(k, body))
 }
